@@ -2,6 +2,7 @@ package main
 
 import (
 	"fmt"
+	"go/constant"
 	"go/token"
 	"go/types"
 	"strings"
@@ -68,6 +69,13 @@ func termString(v ssa.Value, sizes types.Sizes, minWidth *int64) string {
 	case *ssa.BinOp:
 		return "(" + termString(x.X, sizes, minWidth) + " " + x.Op.String() + " " + termString(x.Y, sizes, minWidth) + ")"
 	case *ssa.UnOp:
+		// an entry of a package-level table: tbl:<pkg>.<name>[index]
+		if ia, ok := x.X.(*ssa.IndexAddr); ok && x.Op == token.MUL {
+			if g, ok := ia.X.(*ssa.Global); ok && g.Pkg != nil {
+				var w int64
+				return "tbl:" + g.Pkg.Pkg.Path() + "." + g.Name() + "[" + termString(ia.Index, sizes, &w) + "]"
+			}
+		}
 		return x.Op.String() + termString(x.X, sizes, minWidth)
 	}
 	return "?" + v.Name()
@@ -115,8 +123,8 @@ func validatorPaths(fn *ssa.Function, sizes types.Sizes) (paths []vPath, minWidt
 	if fn == nil || fn.Blocks == nil {
 		return nil, 0, fmt.Errorf("no body")
 	}
-	var walk func(b *ssa.BasicBlock, atoms []Atom, raw []string, depth int) error
-	walk = func(b *ssa.BasicBlock, atoms []Atom, raw []string, depth int) error {
+	var walk func(from, b *ssa.BasicBlock, atoms []Atom, raw []string, depth int) error
+	walk = func(from, b *ssa.BasicBlock, atoms []Atom, raw []string, depth int) error {
 		if depth > 64 {
 			return fmt.Errorf("path too long or loop in %s", fn)
 		}
@@ -139,7 +147,44 @@ func validatorPaths(fn *ssa.Function, sizes types.Sizes) (paths []vPath, minWidt
 				}
 				cond, neg = u.X, !neg
 			}
+			// a short-circuit condition (a && b, a || b): the merged value is, on this path, the operand of the
+			// edge we arrived on
+			only := -1
+			if ph, ok := cond.(*ssa.Phi); ok && ph.Block() == b && from != nil {
+				for i, pr := range b.Preds {
+					if pr != from {
+						continue
+					}
+					e := ph.Edges[i]
+					for {
+						u, ok := e.(*ssa.UnOp)
+						if !ok || u.Op != token.NOT {
+							break
+						}
+						e, neg = u.X, !neg
+					}
+					if c, ok := e.(*ssa.Const); ok && c.Value != nil && c.Value.Kind() == constant.Bool {
+						if constant.BoolVal(c.Value) != neg {
+							only = 0
+						} else {
+							only = 1
+						}
+					} else {
+						cond = e
+					}
+					break
+				}
+			}
 			for i, s := range b.Succs {
+				if only >= 0 && i != only {
+					continue
+				}
+				if only >= 0 {
+					if err := walk(b, s, atoms, raw, depth+1); err != nil {
+						return err
+					}
+					continue
+				}
 				taken := (i == 0) != neg
 				na, nr := atoms, raw
 				if bo, ok := cond.(*ssa.BinOp); ok {
@@ -150,22 +195,25 @@ func validatorPaths(fn *ssa.Function, sizes types.Sizes) (paths []vPath, minWidt
 					} else {
 						nr = append(append([]string{}, raw...), fmt.Sprintf("%v:%s", taken, t.Cond.String()))
 					}
+				} else if ts := termString(cond, sizes, &minWidth); strings.HasPrefix(ts, "tbl:") {
+					// an entry of a table of booleans used as the condition
+					na = append(append([]Atom{}, atoms...), Atom{"==", ts, fmt.Sprintf("const:%v", taken)})
 				} else {
 					nr = append(append([]string{}, raw...), fmt.Sprintf("%v:%s", taken, t.Cond.String()))
 				}
-				if err := walk(s, na, nr, depth+1); err != nil {
+				if err := walk(b, s, na, nr, depth+1); err != nil {
 					return err
 				}
 			}
 			return nil
 		case *ssa.Jump:
-			return walk(b.Succs[0], atoms, raw, depth+1)
+			return walk(b, b.Succs[0], atoms, raw, depth+1)
 		case *ssa.Panic:
 			return nil
 		}
 		return fmt.Errorf("unexpected terminator %T", last)
 	}
-	if err := walk(fn.Blocks[0], nil, nil, 0); err != nil {
+	if err := walk(nil, fn.Blocks[0], nil, nil, 0); err != nil {
 		return nil, 0, err
 	}
 	return paths, minWidth, nil
@@ -352,7 +400,7 @@ func ruleSeqLookup(p *Program, r *Result, f *ssa.Function) {
 		if len(args) == 0 {
 			continue
 		}
-		paths, minW, err := validatorPaths(vf, p.Sizes)
+		paths, minW, err := validatorPaths(p.predicateView(vf), p.Sizes)
 		if err != nil {
 			continue
 		}
